@@ -56,7 +56,8 @@ func newPeerCommand(action peerAction, address string, id string) *peerCommand {
 // U<address>,<8-byte-id>  to unregister
 // If we don't have an ID, then it's old-format Refinery and we just ignore it.
 func (p *peerCommand) unmarshal(msg string) bool {
-	idx := strings.Index(msg, ",")
+	// the ID never contains a comma but the address may, so split at the last one
+	idx := strings.LastIndex(msg, ",")
 	if len(msg) < 2 || idx == -1 {
 		return false
 	}
